@@ -395,7 +395,12 @@ func (t *Tr) indexAddr(in *ssa.IndexAddr) {
 func (t *Tr) unop(in *ssa.UnOp) {
 	switch in.Op {
 	case token.MUL: // load
-		if g, ok := in.X.(*ssa.Global); ok && g.Pkg != nil && t.w.roGlobal[globalKey(g.Pkg.Pkg, g.Name())] {
+		if g, ok := in.X.(*ssa.Global); ok && t.inInit && g.Name() == "init$guard" {
+			// the initialiser's effect is what happens the one time it runs
+			t.vals[in] = Term{"false", SBool_}
+			return
+		}
+		if g, ok := in.X.(*ssa.Global); ok && g.Pkg != nil && !t.inInit && t.w.roGlobal[globalKey(g.Pkg.Pkg, g.Name())] {
 			// a global assigned only by package initialisers: a constant of the run
 			x := t.roGlobalVal(globalKey(g.Pkg.Pkg, g.Name()), in.Type())
 			t.vals[in] = x
@@ -612,6 +617,22 @@ func (t *Tr) ret(in *ssa.Return) {
 	// reachability; only a definite `unsat` is a failure.
 	t.vc.Items = append(t.vc.Items, Item{Kind: itOblig, Text: t.curReach, Name: fmt.Sprintf("novacuity/return#%d", t.retCount), Expect: "notunsat", Src: "assumptions on the path to this return are not contradictory"})
 	t.vc.NOblig++
+	if t.inInit {
+		// the package's global invariants are what its initialiser establishes
+		k := 0
+		for _, gi := range t.w.CS.GlobInvs {
+			if gi.Pkg != t.pkg {
+				continue
+			}
+			env := t.envAt(nil)
+			s, e := env.evalClause(gi.E)
+			if e != nil {
+				efail("%s:%d: globalinv: %v", gi.File, gi.Line, e)
+			}
+			t.checkCl(fmt.Sprintf("globalinv#%d", k), s, "globalinv "+gi.Src+" is established by the package initialiser", in.Pos())
+			k++
+		}
+	}
 	env := t.envAt(nil)
 	env.cur = t.cur
 	env.old = t.entry
